@@ -87,3 +87,77 @@ package keeper
 //@   invariant true
 //@ loop #2
 //@   invariant true
+
+// ---------------------------------------------------------------------------------------------
+// C16: the three per-epoch queues (opt-outs to finish, consensus addresses to prune, undelegations to mature) and
+// the three "pending" lists they are moved to when the epoch ends.
+// Appending to a queue keeps what was queued for that epoch before (read from the SAME queue) and adds the new entry
+// at the end; the pending lists are written and cleared under their own keys; at the end of the dogfood epoch each
+// queue of that epoch is moved to its pending list (always: an empty queue overwrites a stale pending list) and cleared.
+
+//@ define pendOptKey()  = bytelit(g("x/dogfood/types.PendingOptOutsByte"))
+//@ define pendConsKey() = bytelit(g("x/dogfood/types.PendingConsensusAddrsByte"))
+//@ define pendUndKey()  = bytelit(g("x/dogfood/types.PendingUndelegationsByte"))
+
+//@ func (Keeper).AppendOptOutToFinish
+//@   flag pure=GetOptOutsToFinish
+//@   flag havoc=setOptOutsToFinish
+//@   flag noframe
+//@   before[C16.aootf.append] setOptOutsToFinish requires arg_epoch == epoch && len(arg_addrs.List) == len(res_GetOptOutsToFinish_0) + 1 &&
+//@        arg_addrs.List[len(res_GetOptOutsToFinish_0)] == operatorAddr && forall(i, 0, len(res_GetOptOutsToFinish_0), arg_addrs.List[i] == res_GetOptOutsToFinish_0[i])
+//@   before[C16.aootf.source] setOptOutsToFinish requires defined(res_GetOptOutsToFinish_0)
+
+//@ func (Keeper).AppendConsensusAddrToPrune
+//@   flag pure=GetConsensusAddrsToPrune
+//@   flag havoc=setConsensusAddrsToPrune
+//@   flag noframe
+//@   before[C16.acatp.append] setConsensusAddrsToPrune requires arg_epoch == epoch && len(arg_addrs.List) == len(res_GetConsensusAddrsToPrune_0) + 1 &&
+//@        arg_addrs.List[len(res_GetConsensusAddrsToPrune_0)] == operatorAddr && forall(i, 0, len(res_GetConsensusAddrsToPrune_0), arg_addrs.List[i] == res_GetConsensusAddrsToPrune_0[i])
+//@   before[C16.acatp.source] setConsensusAddrsToPrune requires defined(res_GetConsensusAddrsToPrune_0)
+
+//@ func (Keeper).AppendUndelegationToMature
+//@   flag pure=GetUndelegationsToMature
+//@   flag havoc=setUndelegationsToMature
+//@   flag noframe
+//@   before[C16.autm.append] setUndelegationsToMature requires arg_epoch == epoch && len(arg_undelegationRecords.List) == len(res_GetUndelegationsToMature_0) + 1 &&
+//@        arg_undelegationRecords.List[len(res_GetUndelegationsToMature_0)] == recordKey && forall(i, 0, len(res_GetUndelegationsToMature_0), arg_undelegationRecords.List[i] == res_GetUndelegationsToMature_0[i])
+//@   before[C16.autm.source] setUndelegationsToMature requires defined(res_GetUndelegationsToMature_0)
+
+//@ func (Keeper).SetPendingOptOuts
+//@   modifies get(ctx, "dogfood", pendOptKey())
+//@   emits mkEv(81, "pending-optouts", 0)
+//@   ensures[C16.spoo.set] get(ctx, "dogfood", pendOptKey()) != nil
+//@ func (Keeper).ClearPendingOptOuts
+//@   modifies get(ctx, "dogfood", pendOptKey())
+//@   ensures[C16.cpoo.clear] get(ctx, "dogfood", pendOptKey()) == nil
+//@ func (Keeper).SetPendingConsensusAddrs
+//@   modifies get(ctx, "dogfood", pendConsKey())
+//@   emits mkEv(82, "pending-prunes", 0)
+//@   ensures[C16.spca.set] get(ctx, "dogfood", pendConsKey()) != nil
+//@ func (Keeper).ClearPendingConsensusAddrs
+//@   modifies get(ctx, "dogfood", pendConsKey())
+//@   ensures[C16.cpca.clear] get(ctx, "dogfood", pendConsKey()) == nil
+//@ func (Keeper).SetPendingUndelegations
+//@   modifies get(ctx, "dogfood", pendUndKey())
+//@   emits mkEv(83, "pending-undelegations", 0)
+//@   ensures[C16.spu.set] get(ctx, "dogfood", pendUndKey()) != nil
+//@ func (Keeper).ClearPendingUndelegations
+//@   modifies get(ctx, "dogfood", pendUndKey())
+//@   ensures[C16.cpu.clear] get(ctx, "dogfood", pendUndKey()) == nil
+
+//@ func (EpochsHooksWrapper).AfterEpochEnd
+//@   flag pure=GetEpochIdentifier,GetOptOutsToFinish,GetConsensusAddrsToPrune,GetUndelegationsToMature
+//@   flag havoc=MarkEpochEnd,DeleteOperatorOptOutFinishEpoch,ClearOptOutsToFinish,ClearConsensusAddrsToPrune,ClearUndelegationsToMature
+//@   modifies state(ctx), trace
+//@   before[C16.aee.optouts] SetPendingOptOuts requires arg_addrs.List == res_GetOptOutsToFinish_0
+//@   before[C16.aee.prunes]  SetPendingConsensusAddrs requires arg_addrs.List == res_GetConsensusAddrsToPrune_0
+//@   before[C16.aee.undels]  SetPendingUndelegations requires arg_undelegations.List == res_GetUndelegationsToMature_0
+//@   before[C16.aee.clear1]  ClearOptOutsToFinish requires arg_epoch == epoch && traceN() == old(traceN()) + 1
+//@   before[C16.aee.clear2]  ClearConsensusAddrsToPrune requires arg_epoch == epoch && traceN() == old(traceN()) + 2
+//@   before[C16.aee.clear3]  ClearUndelegationsToMature requires arg_epoch == epoch && traceN() == old(traceN()) + 3
+//@   ensures[C16.aee.all]  identifier == res_GetEpochIdentifier_0 ==> traceN() == old(traceN()) + 3 &&
+//@        traceAt(old(traceN())) == mkEv(81, "pending-optouts", 0) && traceAt(old(traceN()) + 1) == mkEv(82, "pending-prunes", 0) &&
+//@        traceAt(old(traceN()) + 2) == mkEv(83, "pending-undelegations", 0)
+//@   ensures[C16.aee.other] identifier != res_GetEpochIdentifier_0 ==> state(ctx) == old(state(ctx)) && traceN() == old(traceN())
+//@ loop #1
+//@   invariant traceN() == old(traceN()) + 1 && traceAt(old(traceN())) == mkEv(81, "pending-optouts", 0)
